@@ -25,6 +25,8 @@ Init == cat = 0 /\ work = None /\ snaps = <<>> /\ seenPlain = 0 /\ seenSess = 0 
 Start == work = None /\ work' = cat /\ UNCHANGED <<cat, snaps, seenPlain, seenSess, next>>
 (* a write in the session transaction creates a new version visible to the session only *)
 SessWrite == work # None /\ next <= MaxVersion /\ work' = next /\ next' = next + 1 /\ UNCHANGED <<cat, snaps, seenPlain, seenSess>>
+(* a call inside the transaction that changes nothing (an update that matches nothing): the transaction goes on *)
+SessNoop == work # None /\ UNCHANGED vars
 SessRead == seenSess' = (IF work # None THEN work ELSE cat) /\ UNCHANGED <<cat, work, snaps, seenPlain, next>>
 Commit(storeOK) == /\ work # None
                    /\ cat' = IF storeOK THEN work ELSE cat
@@ -36,7 +38,7 @@ PlainRead == seenPlain' = cat /\ UNCHANGED <<cat, work, snaps, seenSess, next>>
 PlainWrite == work = None /\ next <= MaxVersion /\ cat' = next /\ next' = next + 1 /\ UNCHANGED <<work, snaps, seenPlain, seenSess>>
 TakeSnapshot == Len(snaps) < MaxSnaps /\ snaps' = Append(snaps, cat) /\ UNCHANGED <<cat, work, seenPlain, seenSess, next>>
 
-Next == Start \/ SessWrite \/ SessRead \/ Commit(TRUE) \/ Commit(FALSE) \/ Abort \/ PlainRead \/ PlainWrite \/ TakeSnapshot
+Next == Start \/ SessWrite \/ SessNoop \/ SessRead \/ Commit(TRUE) \/ Commit(FALSE) \/ Abort \/ PlainRead \/ PlainWrite \/ TakeSnapshot
 Spec == Init /\ [][Next]_vars
 
 (* properties *)
